@@ -638,10 +638,22 @@ def check_offset(case, rec):
     else:
         # the two grids have steps that differ by rounding (eps*|t0|/dt relative);
         # the allowed difference is what that step difference does to the response
-        fa, fb = _bins(n, dt_a), _bins(n, dt_b)
-        dh = float(np.max(np.abs(h_vec(fa) - h_vec(fb))))
-        if not fr:
-            dh = max(dh, float(np.max(np.abs(h_vec(-fa) - h_vec(-fb)))))
+        fa = _bins(n, dt_a)
+        # (a grid reached by shift() is times_a + delta, rounded sample by sample: its first
+        # spacing and its mean spacing differ from those of a freshly built grid B by further
+        # ulps of |t|; every candidate step is allowed for, twice over)
+        steps = [dt_b]
+        if case["via_shift"] and n >= 2:
+            tb = np.asarray(sig.times, dtype=float)
+            steps += [float(tb[1] - tb[0]), float(tb[-1] - tb[0]) / (n - 1)]
+            steps += [dt_b + 2 * math.ulp(float(np.max(np.abs(tb)))), dt_b - 2 * math.ulp(float(np.max(np.abs(tb))))]
+        dh = 0.0
+        for st_ in steps:
+            fb = _bins(n, st_)
+            dh = max(dh, float(np.max(np.abs(h_vec(fa) - h_vec(fb)))))
+            if not fr:
+                dh = max(dh, float(np.max(np.abs(h_vec(-fa) - h_vec(-fb)))))
+        dh *= 2.0
         hmax = _hmax(h_vec, fa, not fr)
         sens = _sens(h_vec, fa, not fr)
         tol = _tol(n, hmax, 2 * _norm((x)), sens=dh + sens)
